@@ -16,11 +16,18 @@
                    length-dependent branch.  That the READER hands over a whole line whatever its
                    length (bufio.ReadString) is an assumption of the model that only this dynamic
                    part samples (sessions contain lines up to ~70 000 bytes).
+   kind "transcript": a whole session through the COMPOSED client model (Model/Client.v); format,
+                   prediction and oracle in Model/ClientObs.v (std++ side: Required, not Imported).
+                   e_model = [client_session]'s prediction of every line the client wrote, per marker
+                   interval, and of the final Me / tracker dump / capabilities; e_agree = exact
+                   equality; e_oracle = C02's claim only ([C02_transcript_ok]: alive, every marker
+                   answered, probe replies in their own interval and in order).
    ORACLE (gating): nothing panicked / the client still answers ([C02_ok], [C02_session_ok]).
    AGREEMENT (model drift): for inputs made of bytes < 0x80 the whole observation must equal the
    model's; for inputs containing a byte >= 0x80 (Go's strings.Fields / ToUpper / TrimSpace are
    Unicode-aware there, the model's instances are ASCII) only panicked-or-not is compared. *)
 From Verif Require Import EntryBase LineLib Line RecvSession.
+From Verif Require ClientObs.
 Open Scope Z_scope.
 
 Definition k_parse : bytes := [112; 97; 114; 115; 101]%N.
@@ -63,6 +70,7 @@ Definition model_session (lines : list bytes) : list bytes :=
 Definition model_C02 (i : list bytes) : list bytes :=
   if beq (get i 0) k_parse then model_parse (get i 1)
   else if beq (get i 0) k_session then model_session (skipn 2 i)
+  else if beq (get i 0) ClientObs.t_transcript then ClientObs.model_transcript i
   else [tag_bad].
 
 (* decode the panic flags out of an observation; a malformed observation counts as a panic *)
@@ -85,6 +93,7 @@ Definition has_high (s : bytes) : bool := existsb (fun c => (128 <=? c)%N) s.
 Definition oracle_C02 (i o : list bytes) : bool :=
   if beq (get i 0) k_parse then C02_ok (obs_flags o)
   else if beq (get i 0) k_session then C02_session_ok (beq (get o 0) tag_alive)
+  else if beq (get i 0) ClientObs.t_transcript then ClientObs.oracle_transcript i o
   else false.
 
 Definition agree_C02 (i o : list bytes) : bool :=
@@ -93,6 +102,7 @@ Definition agree_C02 (i o : list bytes) : bool :=
     then Bool.eqb (C02_ok (obs_flags (model_C02 i))) (C02_ok (obs_flags o))
     else fields_eqb (model_C02 i) o
   else if beq (get i 0) k_session then beq (get (model_C02 i) 0) (get o 0)
+  else if beq (get i 0) ClientObs.t_transcript then fields_eqb (model_C02 i) o
   else false.
 
 Definition entry_C02 : entry :=
